@@ -46,7 +46,7 @@ def getSingleDistrict (G : MG Name) : Except Err (List Name) :=
   | _ => .error (.internal "RuntimeError")
 
 /-- `ordering.index(child)`; `ValueError` when absent -/
-def indexOf? (order : List Name) (v : Name) : Except Err Nat :=
+def orderIndex? (order : List Name) (v : Name) : Except Err Nat :=
   if v ∈ order then .ok (order.takeWhile (· ≠ v)).length else .error (.internal "ValueError")
 
 /-- `_is_observational_marginal(estimand)` (`fix:` F3): nested sums over a plain joint `P(…)`
@@ -60,7 +60,7 @@ def isObsMarginal : Expr → Bool
 predecessors, read off the carried estimand; written `P(child | predecessors)` when the estimand is (a
 marginal of) the observational joint -/
 def pParents (order : List Name) (est : Expr) (child : Name) : Except Err Expr := do
-  let i ← indexOf? order child
+  let i ← orderIndex? order child
   if isObsMarginal est then pure (pCond child (order.take i))
   else div (sumSafe est (order.drop (i + 1))) (sumSafe est (order.drop i))
 
@@ -77,43 +77,69 @@ inductive Step where
   | split (Js : List IdIn) (ranges : List Name)
   deriving Inhabited
 
-/-- the body of `identify` (id_std.py:14-70) up to the recursive calls -/
-def step (topo : MG Name → Except Err (List Name)) (I : IdIn) : Except Err Step := do
-  let V := I.G.nodes
-  -- line 1
-  if I.X.isEmpty then
-    return .done (sumSafe I.est (diff' V I.Y))
-  -- line 2
-  let anc ← I.G.ancestorsInclusive I.Y
-  let notAnc := diff' V anc
-  if !notAnc.isEmpty then
-    return .tail { G := I.G.subgraph anc, X := inter' I.X anc, Y := I.Y, est := sumSafe I.est notAnc }
-  -- line 3
-  let anc' ← (I.G.removeInEdges I.X).ancestorsInclusive I.Y
-  let noEffect := diff' (diff' V I.X) anc'
-  if !noEffect.isEmpty then
-    return .tail { I with X := union' I.X noEffect }
-  -- line 4
-  let Gx := I.G.removeNodes I.X
-  if !(← Gx.isConnected) then
-    return .split (Gx.districts.map fun S => { G := I.G, X := diff' V S, Y := S, est := I.est })
-      (diff' V (union' I.Y I.X))
-  -- line 5
-  if ← I.G.isConnected then
-    throw .unidentifiable
-  -- line 6
-  let S ← getSingleDistrict Gx
-  if I.G.districts.any (fun D => seteq' D S) then
-    let order ← topo I.G
-    let fs ← S.mapM (pParents order I.est)
-    return .done (sumSafe (productSafe fs) (diff' S I.Y))
-  -- line 7
+/-- line 2: `Identification.from_parts(outcomes, treatments & An(Y), Sum.safe(estimand, V - An(Y)), G[An(Y)])` -/
+def line2 (I : IdIn) (anc : List Name) : IdIn :=
+  { G := I.G.subgraph anc, X := inter' I.X anc, Y := I.Y, est := sumSafe I.est (diff' I.G.nodes anc) }
+
+/-- line 3: `identification.with_treatments(no_effect_on_outcome)` -/
+def line3 (I : IdIn) (noEffect : List Name) : IdIn := { I with X := union' I.X noEffect }
+
+/-- line 4: one sub-problem per district `S` of `G - X`: outcomes `S`, treatments `V - S`, same estimand and graph -/
+def line4 (I : IdIn) (ds : List (List Name)) : Step :=
+  .split (ds.map fun S => { G := I.G, X := diff' I.G.nodes S, Y := S, est := I.est })
+    (diff' I.G.nodes (union' I.Y I.X))
+
+/-- line 6: `Sum.safe(Product.safe(p_parents(v, topological order) for v in S), S - Y)` -/
+def line6 (topo : MG Name → Except Err (List Name)) (I : IdIn) (S : List Name) : Except Err Step := do
+  let order ← topo I.G
+  let fs ← S.mapM (pParents order I.est)
+  pure (.done (sumSafe (productSafe fs) (diff' S I.Y)))
+
+/-- line 7: the first district `D` of `G` with `S < D`; recurse on `G[D]` with the estimand
+`Product.safe(p_parents(v, topological order) for v in D)` -/
+def line7 (topo : MG Name → Except Err (List Name)) (I : IdIn) (S : List Name) : Except Err Step :=
   match I.G.districts.find? (fun D => properSubset S D) with
-  | some D =>
+  | some D => do
     let order ← topo I.G
     let fs ← D.mapM (pParents order I.est)
-    return .tail { G := I.G.subgraph D, X := inter' I.X D, Y := I.Y, est := productSafe fs }
-  | none => throw (.internal "ValueError")
+    pure (.tail { G := I.G.subgraph D, X := inter' I.X D, Y := I.Y, est := productSafe fs })
+  | none => .error (.internal "ValueError")
+
+/-- lines 4-7 of `identify` -/
+def stepB (topo : MG Name → Except Err (List Name)) (I : IdIn) : Except Err Step :=
+  let Gx := I.G.removeNodes I.X
+  match Gx.isConnected with
+  | .error e => .error e
+  | .ok false => .ok (line4 I Gx.districts)                 -- line 4
+  | .ok true =>
+    match I.G.isConnected with
+    | .error e => .error e
+    | .ok true => .error .unidentifiable                      -- line 5
+    | .ok false =>
+      match getSingleDistrict Gx with
+      | .error e => .error e
+      | .ok S =>
+        if I.G.districts.any (fun D => seteq' D S) then line6 topo I S    -- line 6
+        else line7 topo I S                                               -- line 7
+
+/-- the body of `identify` (id_std.py:14-70) up to the recursive calls -/
+def step (topo : MG Name → Except Err (List Name)) (I : IdIn) : Except Err Step :=
+  -- line 1
+  if I.X.isEmpty then .ok (.done (sumSafe I.est (diff' I.G.nodes I.Y)))
+  else
+    -- line 2
+    match I.G.ancestorsInclusive I.Y with
+    | .error e => .error e
+    | .ok anc =>
+      if !(diff' I.G.nodes anc).isEmpty then .ok (.tail (line2 I anc))
+      else
+        -- line 3
+        match (I.G.removeInEdges I.X).ancestorsInclusive I.Y with
+        | .error e => .error e
+        | .ok anc' =>
+          let noEffect := diff' (diff' I.G.nodes I.X) anc'
+          if !noEffect.isEmpty then .ok (.tail (line3 I noEffect))
+          else stepB topo I
 
 /-- the termination measure `(|V|, |V ∖ X|)` -/
 def IdIn.measure (I : IdIn) : Nat × Nat := (I.G.nodes.length, (diff' I.G.nodes I.X).length)
